@@ -24,6 +24,7 @@ type XType struct {
 	Default        string
 	FractionDigits int
 	Patterns       []string
+	Posix          []string `json:",omitempty"` // posix-pattern arguments, accumulated like Patterns
 	Enums          map[string]int64
 	Bits           map[string]int64
 	Path           string
@@ -293,6 +294,7 @@ func builtinType(name string) *XType {
 func (x *XType) clone() *XType {
 	c := *x
 	c.Patterns = append([]string(nil), x.Patterns...)
+	c.Posix = append([]string(nil), x.Posix...)
 	c.Union = append([]*XType(nil), x.Union...)
 	return &c
 }
@@ -375,6 +377,17 @@ func (r *Ref) ResolveType(t *ymodel.TypeRef, s Scope) *XType {
 		}
 		if !dup {
 			x.Patterns = append(x.Patterns, p)
+		}
+	}
+	for _, p := range t.Posix {
+		dup := false
+		for _, q := range x.Posix {
+			if q == p {
+				dup = true
+			}
+		}
+		if !dup {
+			x.Posix = append(x.Posix, p)
 		}
 	}
 	number := func(ms []ymodel.EnumM, min, max *big.Int, dupInvalid bool) map[string]int64 {
